@@ -81,6 +81,7 @@ pub struct Run {
     pub written_by: HashMap<u64, Vec<String>>,
     pub last_doc: HashMap<usize, Map<String, Value>>,
     pub doc_hist: HashMap<usize, Vec<Map<String, Value>>>,
+    pub last_info: HashMap<usize, Option<Map<String, Value>>>,
 }
 
 fn rname(r: usize) -> String {
@@ -112,6 +113,7 @@ impl Run {
             written_by: HashMap::new(),
             last_doc: HashMap::new(),
             doc_hist: HashMap::new(),
+            last_info: HashMap::new(),
         };
         let list_seed = spec.get("list_seed").and_then(|v| v.as_u64());
         let backend = spec.get("backend").and_then(|v| v.as_str()).map(|s| s.to_string());
@@ -370,9 +372,12 @@ impl Run {
             }
             "commit" => {
                 self.commits += 1;
+                let same = op.get("same_info").and_then(|v| v.as_bool()).unwrap_or(false);
                 let info: Option<Map<String, Value>> = match op.get("info") {
                     Some(Value::Object(o)) => Some(o.clone()),
                     Some(Value::Null) => None,
+                    // a retry with the metadata of this replica's previous attempt (what a caller that retries does)
+                    _ if same && self.last_info.contains_key(&r) => self.last_info[&r].clone(),
                     _ => {
                         let mut p = Prng::new(op.get("seed").and_then(|v| v.as_u64()).unwrap_or(self.commits));
                         match p.below(16) {
@@ -382,6 +387,7 @@ impl Run {
                         }
                     }
                 };
+                self.last_info.insert(r, info.clone());
                 let pre = self.items_of(r);
                 let from = self.stores[r].lock().unwrap().log.len();
                 if let Some(f) = op.get("fail").and_then(|f| f.as_array()) {
@@ -1331,14 +1337,22 @@ pub fn random_spec(run: u64, seed: u64, profile: &str) -> Value {
             let plan: Vec<u64> = match p.below(6) { 0 => vec![1], 1 => vec![2], 2 => vec![1, 2], 3 => vec![1, 3], 4 => vec![2, 3], _ => vec![] };
             if !plan.is_empty() {
                 ops.push(json!({"op": "commit", "r": r, "seed": p.next(), "fail": plan, "crashenum": true}));
+                let same = p.chance(2, 3);      // the caller retries with the same metadata
+                let mut edited = false;
                 if p.chance(1, 2) {
-                    ops.push(json!({"op": "commit", "r": r, "seed": p.next(), "fail": [1 + p.below(2)]}));
+                    ops.push(json!({"op": "commit", "r": r, "seed": p.next(), "fail": [1 + p.below(2)], "same_info": same}));
+                    if p.chance(1, 3) {
+                        ops.push(json!({"op": "commit", "r": r, "seed": p.next(), "fail": [1], "same_info": same}));
+                    }
                 }
                 if p.chance(1, 3) {
                     ops.push(json!({"op": "edit", "r": r, "seed": p.next()}));
+                    edited = true;
                 }
+                ops.push(json!({"op": "commit", "r": r, "seed": p.next(), "crashenum": true, "same_info": same && !edited}));
+            } else {
+                ops.push(json!({"op": "commit", "r": r, "seed": p.next(), "crashenum": true}));
             }
-            ops.push(json!({"op": "commit", "r": r, "seed": p.next(), "crashenum": true}));
             if p.chance(1, 2) {
                 ops.push(json!({"op": "reopen", "r": r}));
             }
